@@ -83,6 +83,30 @@ def instanciate (s : State) (m : RawAcc) : State := newMesh s m.verts m.edges m.
 /-- `np.argsort(p)` for a permutation `p` of `0..n-1`: the inverse permutation -/
 def argsortPerm (p : List Nat) : List Nat := (List.range p.length).map (fun j => p.idxOf j)
 
+/-! ### raw mesh data, typed meshes, loaders, procedural producers (round 7) -/
+
+/-- a `RawMeshData` OBJECT: its containers are lists of REFERENCES to vector objects — the same record as a typed mesh, which is
+built around the very same containers (`Mesh.__init__`: `self.vertices = data.vertices`, …) -/
+abbrev Raw := Mesh
+
+def Raw.empty : Raw := { verts := [], edges := [], faces := [], cells := [] }
+
+/-- where a vector object stored by a producer comes from -/
+inductive Prov where
+  | fresh      -- `Vec(x, y, z)`, an arithmetic expression, a function result: a NEW array
+  | copy       -- `Vec(v.copy())`, `np.array(v)`: a new array with the values of an existing one
+  | alias      -- an object that is (or is a view of) a vector already stored somewhere
+  deriving DecidableEq, Repr
+
+/-- MEANING of a producer's table of vertex-store sites: when no site stores an alias, the produced mesh has its `pts` in FRESH
+cells (`newMesh`); otherwise nothing is claimed (state returned unchanged) -/
+def producerByTable (sites : List (String × Prov)) (pts : List V3) (e f c : List (List Nat)) (s : State) : State :=
+  if sites.all (fun p => p.2 != .alias) then newMesh s pts e f c else s
+
+/-- what a file reader returns (`read_by_extension`): a raw mesh whose vectors were built while parsing — NEW objects
+(the readers themselves belong to C04) -/
+def readFile (s : State) (vs : List V3) (e f c : List (List Nat)) : State := newMesh s vs e f c
+
 /-! ### `copy`: the statement tables (round 5) -/
 
 /-- how the right-hand side of `copy_mesh.<path> = …` is obtained from `mesh.<path>` -/
